@@ -1397,14 +1397,16 @@ func (f *Framer) WriteRawFrame(t FrameType, flags Flags, streamID uint32, payloa
 
 func readByte(p []byte) (remain []byte, b byte, err error) {
 	if len(p) == 0 {
-		return nil, 0, io.ErrUnexpectedEOF
+		// RFC 7540 section 4.2: too small to contain mandatory frame data
+		return nil, 0, connError{ErrCodeFrameSize, "frame too short for its pad length field"}
 	}
 	return p[1:], p[0], nil
 }
 
 func readUint32(p []byte) (remain []byte, v uint32, err error) {
 	if len(p) < 4 {
-		return nil, 0, io.ErrUnexpectedEOF
+		// RFC 7540 section 4.2: too small to contain mandatory frame data
+		return nil, 0, connError{ErrCodeFrameSize, "frame too short for its fixed fields"}
 	}
 	return p[4:], binary.BigEndian.Uint32(p[:4]), nil
 }
